@@ -28,6 +28,11 @@ use std::ops::Deref;
 /// assert_eq!(domain.values(), vec![0.0, 0.5, 1.0]);
 /// ```
 pub fn linear_space(start: f64, end: f64, n: usize) -> DiscreteDomain {
+    if n < 2 {
+        return DiscreteDomain {
+            values: vec![start; n],
+        };
+    }
     let mut values = Vec::with_capacity(n);
     let step = (end - start) / (n - 1) as f64;
     for i in 0..n {
